@@ -88,7 +88,7 @@ Mix ==
                              "SetObjective", "SetObjCoef", "SetDirection", "SetMedium", "GetMedium", "SwitchSolver",
                              "AddUserCons", "AddUserVar", "RemoveUserCons", "RemoveUserVar", "AddGroup", "RemoveGroup",
                              "Copy", "Enter", "Exit", "RoundTrip", "DetachedSetBounds", "RxnArith", "Merge", "SaveDoc", "LoadDoc", "BuildFromString", "BuildFromString",
-                             "SetFunctional", "Repair", "ReAddDetached", "ReAddDetached", "AddArith", "FixObjective">>
+                             "SetFunctional", "Repair", "ReAddDetached", "ReAddDetached", "AddArith", "FixObjective", "SetAttr">>
     [] Profile = "ctx" -> <<"Enter", "Enter", "Enter", "Exit", "Exit", "Exit", "AddReactions", "RemoveReactions",
                             "RemoveReactions", "AddMetabolites", "RemoveMetabolites", "AddBoundary", "RxnAddMetabolites",
                             "RxnAddMetabolites", "RxnSubtractMetabolites", "RxnIMul", "RxnIAdd", "RxnISub", "SetLB", "SetUB",
@@ -103,11 +103,13 @@ Mix ==
                              "RxnIMul", "SetBounds", "SetRule", "GeneKnockOut", "RemoveGenes", "RenameGene", "RenameReaction",
                              "RenameMetabolite", "SetObjective", "SetDirection", "SetMedium", "AddUserCons", "AddGroup",
                              "RemoveGroup", "Annotate", "Annotate", "Annotate", "Analyze", "Enter", "Exit", "SwitchSolver",
-                             "RxnArith", "RxnArith", "Merge", "Merge", "AddArith", "AddArith", "AddArith">>
+                             "RxnArith", "RxnArith", "Merge", "Merge", "AddArith", "AddArith", "AddArith", "SetAttr",
+                             "SetAttr">>
     [] Profile = "io" -> <<"RoundTrip", "RoundTrip", "RoundTrip", "RoundTrip", "AddReactions", "RemoveReactions", "RxnAddMetabolites",
                            "SetBounds", "SetBounds", "SetLB", "SetUB", "SetRule", "SetObjective", "SetObjCoef",
                            "SetDirection", "AddBoundary", "AddGroup", "Annotate", "Annotate", "Annotate", "RenameGene",
-                           "AddMetabolites", "Copy", "SaveDoc", "SaveDoc", "LoadDoc", "LoadDoc">>
+                           "AddMetabolites", "Copy", "SaveDoc", "SaveDoc", "LoadDoc", "LoadDoc", "SetAttr", "SetAttr",
+                           "SetAttr">>
     [] Profile = "analyze" -> <<"Analyze", "Analyze", "Analyze", "Analyze", "FixObjective", "SetBounds", "SetObjective", "SetDirection",
                                 "RemoveReactions", "AddReactions", "GeneKnockOut", "Enter", "Exit", "RxnKnockOut">>
 
@@ -210,6 +212,10 @@ DrawOp(r, S) ==
     [] k = "RemoveGroup" -> base @@ [g |-> "grp1"]
     [] k = "Annotate" -> base @@ [x |-> IF Profile = "io" /\ d[11] % 2 = 0 THEN "MODEL" ELSE Pick(<<rx, mt, gn, "MODEL">>, d[8]),
                                   v |-> 1 + (d[9] % 5), via |-> d[10] % 3]
+    [] k = "SetAttr" ->
+         LET f == Pick(<<"name", "formula", "charge", "subsys", "name", "charge">>, d[8]) IN
+         base @@ [field |-> f, x |-> IF f \in {"formula", "charge"} THEN mt ELSE IF f = "subsys" THEN rx ELSE Pick(<<rx, mt, gn>>, d[9]),
+                  v |-> IF f = "charge" THEN Pick(<<99, 0, 2, -1>>, d[10]) ELSE 1 + (d[10] % 3)]
     [] k = "Copy" -> [a |-> k, s |-> 1, t |-> 2, kind |-> Pick(<<"copy", "deepcopy", "pickle">>, d[8])]
     [] k = "Merge" -> [a |-> k, s |-> s, t |-> 3 - s]
     [] k = "AddArith" -> [a |-> k, s |-> s, t |-> IF d[10] % 3 = 0 THEN s ELSE 3 - s, r |-> rx, q |-> rx2,
@@ -239,6 +245,8 @@ IoOps ==
   \cup {[a |-> "LoadDoc", s |-> t] : t \in {1, 2}}
   \cup {[a |-> "Annotate", s |-> 1, x |-> "MODEL", v |-> 3, via |-> 2],
         [a |-> "Annotate", s |-> 1, x |-> "g1", v |-> 4, via |-> 0],
+        [a |-> "SetAttr", s |-> 1, x |-> "m1", field |-> "charge", v |-> 0],
+        [a |-> "SetAttr", s |-> 1, x |-> "m1", field |-> "formula", v |-> 2],
         [a |-> "SetBounds", s |-> 1, r |-> "r1", lo |-> 1500, hi |-> 2000],
         [a |-> "SetDirection", s |-> 1, dir |-> "min"]}
 \* copy vocabulary: two models (slot 2 = copy of slot 1, seed model 2), edits on either side, detached results of
